@@ -1,17 +1,19 @@
 (* C02 — the debug profile never returns a wrapped value: whenever a computation of the model
-   succeeds with overflow checks on (M64 true), the same computation in unbounded arithmetic
-   (MInf) succeeds with the same result.  Hence a block accepted by the debug-profile
-   validation is accepted by the unbounded validation the C02/C13 theorems speak about. *)
+   succeeds with overflow checks on (M64 true), the same computation succeeds with the same
+   result in unbounded arithmetic (MInf) and in wrapping arithmetic (M64 false).  Hence
+   - a block accepted by the debug-profile validation is accepted by the unbounded validation
+     the C02/C13 theorems speak about, and
+   - a block accepted by the release-profile validation is either accepted by the unbounded
+     validation too, or some u64 operation wrapped on the way (the debug profile panics on it). *)
 From Saito Require Import Base CV Supply CVProofs.
 
-Lemma add_dbg_inf : forall s a b r, add (M64 true) s a b = Ok r -> add MInf s a b = Ok r.
-Proof. intros s a b r H. cbn [add] in *. destruct (a + b <? two64); [exact H | discriminate]. Qed.
-Lemma mul_dbg_inf : forall s a b r, mul (M64 true) s a b = Ok r -> mul MInf s a b = Ok r.
-Proof. intros s a b r H. cbn [mul] in *. destruct (a * b <? two64); [exact H | discriminate]. Qed.
-Lemma sub_dbg_inf : forall s a b r, sub (M64 true) s a b = Ok r -> sub MInf s a b = Ok r.
-Proof. intros s a b r H. unfold sub in *. destruct (b <=? a); [exact H | discriminate]. Qed.
-Lemma inc8_dbg_inf : forall a r, inc8 (M64 true) a = Ok r -> inc8 MInf a = Ok r.
-Proof. intros a r H. cbn [inc8] in *. destruct (a + 1 <? 256); [exact H | discriminate]. Qed.
+Section Target.
+  (* the target mode and the four facts about it that the transfer needs *)
+  Variable m2 : amode.
+  Hypothesis add_dbg_inf : forall s a b r, add (M64 true) s a b = Ok r -> add m2 s a b = Ok r.
+  Hypothesis mul_dbg_inf : forall s a b r, mul (M64 true) s a b = Ok r -> mul m2 s a b = Ok r.
+  Hypothesis sub_dbg_inf : forall s a b r, sub (M64 true) s a b = Ok r -> sub m2 s a b = Ok r.
+  Hypothesis inc8_dbg_inf : forall a r, inc8 (M64 true) a = Ok r -> inc8 m2 a = Ok r.
 
 (* one monadic step: destruct the debug-mode operation at the head of H, transfer it to the goal *)
 Ltac dbg_op E :=
@@ -30,13 +32,13 @@ Ltac dbg_bind H :=
       dbg_op E; rewrite E; cbn [bind]
   end.
 
-Lemma sweep_step_dbg : forall a it r, sweep_step (M64 true) a it = Ok r -> sweep_step MInf a it = Ok r.
+Lemma sweep_step_dbg : forall a it r, sweep_step (M64 true) a it = Ok r -> sweep_step m2 a it = Ok r.
 Proof.
   intros a [index t] r H. unfold sweep_step in *.
   repeat dbg_bind H; exact H.
 Qed.
 
-Lemma sweep_dbg : forall l a i r, sweep (M64 true) a i l = Ok r -> sweep MInf a i l = Ok r.
+Lemma sweep_dbg : forall l a i r, sweep (M64 true) a i l = Ok r -> sweep m2 a i l = Ok r.
 Proof.
   induction l as [|t l IH]; intros a i r H; cbn [sweep] in *; [exact H|].
   destruct (sweep_step (M64 true) a (i, t)) eqn:E; cbn [bind] in H; try discriminate.
@@ -44,7 +46,7 @@ Proof.
 Qed.
 
 Lemma atr_group_dbg : forall orig mult fee a g r,
-  atr_group (M64 true) orig mult fee a g = Ok r -> atr_group MInf orig mult fee a g = Ok r.
+  atr_group (M64 true) orig mult fee a g = Ok r -> atr_group m2 orig mult fee a g = Ok r.
 Proof.
   intros orig mult fee a g r H. unfold atr_group in *.
   repeat dbg_bind H;
@@ -53,21 +55,21 @@ Proof.
 Qed.
 
 Lemma atr_groups_dbg : forall orig mult fee gs a r,
-  atr_groups (M64 true) orig mult fee a gs = Ok r -> atr_groups MInf orig mult fee a gs = Ok r.
+  atr_groups (M64 true) orig mult fee a gs = Ok r -> atr_groups m2 orig mult fee a gs = Ok r.
 Proof.
   intros orig mult fee. induction gs as [|g gs IH]; intros a r H; cbn [atr_groups] in *; [exact H|].
   destruct (atr_group (M64 true) orig mult fee a g) eqn:E; cbn [bind] in H; try discriminate.
   apply atr_group_dbg in E. rewrite E. cbn [bind]. apply IH. exact H.
 Qed.
 
-Lemma eligible_sum_dbg : forall gs acc r, eligible_sum (M64 true) acc gs = Ok r -> eligible_sum MInf acc gs = Ok r.
+Lemma eligible_sum_dbg : forall gs acc r, eligible_sum (M64 true) acc gs = Ok r -> eligible_sum m2 acc gs = Ok r.
 Proof.
   induction gs as [|g gs IH]; intros acc r H; cbn [eligible_sum] in *; [exact H|].
   dbg_bind H. apply IH. exact H.
 Qed.
 
 Lemma atr_tx_dbg : forall v mult fpb a t r,
-  atr_tx (M64 true) v mult fpb a t = Ok r -> atr_tx MInf v mult fpb a t = Ok r.
+  atr_tx (M64 true) v mult fpb a t = Ok r -> atr_tx m2 v mult fpb a t = Ok r.
 Proof.
   intros v mult fpb a t r H. unfold atr_tx in *.
   destruct (eligible_sum (M64 true) 0 (group_collect v (t_to t))) eqn:E; cbn [bind] in H; try discriminate.
@@ -77,14 +79,14 @@ Proof.
 Qed.
 
 Lemma atr_txs_dbg : forall v mult fpb l a r,
-  atr_txs (M64 true) v mult fpb a l = Ok r -> atr_txs MInf v mult fpb a l = Ok r.
+  atr_txs (M64 true) v mult fpb a l = Ok r -> atr_txs m2 v mult fpb a l = Ok r.
 Proof.
   intros v mult fpb. induction l as [|t l IH]; intros a r H; cbn [atr_txs] in *; [exact H|].
   destruct (atr_tx (M64 true) v mult fpb a t) eqn:E; cbn [bind] in H; try discriminate.
   apply atr_tx_dbg in E. rewrite E. cbn [bind]. apply IH. exact H.
 Qed.
 
-Lemma cap_loop_dbg : forall adj l pay r, cap_loop (M64 true) adj pay l = Ok r -> cap_loop MInf adj pay l = Ok r.
+Lemma cap_loop_dbg : forall adj l pay r, cap_loop (M64 true) adj pay l = Ok r -> cap_loop m2 adj pay l = Ok r.
 Proof.
   intros adj. induction l as [|t l IH]; intros pay r H; cbn [cap_loop] in *; [exact H|].
   repeat dbg_bind H;
@@ -93,7 +95,7 @@ Proof.
 Qed.
 
 Lemma atr_section_dbg : forall cap05 gp v i fees r,
-  atr_section cap05 (M64 true) gp v i fees = Ok r -> atr_section cap05 MInf gp v i fees = Ok r.
+  atr_section cap05 (M64 true) gp v i fees = Ok r -> atr_section cap05 m2 gp v i fees = Ok r.
 Proof.
   intros cap05 gp v i fees r H. unfold atr_section in *.
   dbg_bind H.
@@ -119,7 +121,7 @@ Ltac dbg_inner H :=
   end.
 
 Lemma payouts_dbg : forall cap15 i gti nonfee r,
-  payouts cap15 (M64 true) i gti nonfee = Ok r -> payouts cap15 MInf i gti nonfee = Ok r.
+  payouts cap15 (M64 true) i gti nonfee = Ok r -> payouts cap15 m2 i gti nonfee = Ok r.
 Proof.
   intros cap15 i gti nonfee r H. unfold payouts in *.
   destruct gti; [|exact H].
@@ -137,7 +139,7 @@ Proof.
 Qed.
 
 Lemma gcv_dbg : forall cap15 cap05 gp v i c,
-  gcv cap15 cap05 (M64 true) gp v i = Ok c -> gcv cap15 cap05 MInf gp v i = Ok c.
+  gcv cap15 cap05 (M64 true) gp v i = Ok c -> gcv cap15 cap05 m2 gp v i = Ok c.
 Proof.
   intros cap15 cap05 gp v i c H. unfold gcv in *.
   destruct (sweep (M64 true) sweep0 0 (i_txs i)) as [w| |] eqn:Ew; cbn [bind] in H; try discriminate.
@@ -161,13 +163,13 @@ Proof.
              (smooth gp (pv h_avg_fpb) fpb) fpb bf d
              (r_slips a) (r_nolan a) (r_rbs a) (r_hash a) (smooth gp (pv h_avg_nolan) (r_nolan a)) (r_dust a)
              (p_fee_tx p) (r_cap a))) = Ok c ->
-    (do a <- atr_section cap05 MInf gp v i (w_fees w);
+    (do a <- atr_section cap05 m2 gp v i (w_fees w);
      let fees_cum := match r_cum a with Some c0 => c0 | None => w_fees w end in
-     do total_fees <- add MInf P_TOTAL_FEES (w_fees w) (r_fees a);
+     do total_fees <- add m2 P_TOTAL_FEES (w_fees w) (r_fees a);
      let fpb := if 0 <? w_bytes w then w_fees w / w_bytes w else 0 in
      if gp =? 0 then Panic P_SMOOTH_DIV0 else
      let pv (f : hdr -> N) := match i_prev i with Some p => f p | None => 0 end in
-     do p <- payouts cap15 MInf i (w_gti w) (w_nonfee w);
+     do p <- payouts cap15 m2 i (w_gti w) (w_nonfee w);
      Ok (mkCv (w_ft w) (w_fti w) (w_gt w) (w_gti w) (w_st w) (w_sti w) (w_it w) (w_iti w)
              total_fees (w_fees w) (r_fees a) fees_cum
              (smooth gp (pv h_avg_total_fees) total_fees) (smooth gp (pv h_avg_fees_new) (w_fees w))
@@ -195,8 +197,17 @@ Proof.
   - cbn [bind] in H |- *. apply Htail. exact H.
 Qed.
 
+(* the part of Block::validate after the parent-dependent checks does not depend on the mode
+   (the age test of Transaction::validate uses saturating_add since 8712765) *)
+Ltac finish_rest H :=
+  cbn [bind] in H |- *;
+  repeat match type of H with (if ?c then Ok false else _) = _ => destruct c; [exact H|] end;
+  cbv zeta in H; cbv zeta;
+  repeat match type of H with (if ?c then Ok false else _) = _ => destruct c; [exact H|] end;
+  exact H.
+
 Lemma validate_dbg : forall cap15 cap05 cf st b v,
-  validate_m cap15 cap05 cf (M64 true) st b = Ok v -> validate_m cap15 cap05 cf MInf st b = Ok v.
+  validate_m cap15 cap05 cf (M64 true) st b = Ok v -> validate_m cap15 cap05 cf m2 st b = Ok v.
 Proof.
   intros cap15 cap05 cf st b v H. unfold validate_m in *.
   destruct (no_tx_reject st b); [exact H|].
@@ -206,11 +217,34 @@ Proof.
   match type of H with bind ?X _ = _ => destruct X as [c| |] eqn:Ec end; cbn [bind] in H; try discriminate.
   apply gcv_dbg in Ec. rewrite Ec. cbn [bind].
   repeat match type of H with (if ?c then Ok false else _) = _ => destruct c; [exact H|] end.
-  destruct (parent_of st) as [pb|]; [|exact H].
+  destruct (parent_of st) as [pb|]; [|finish_rest H].
   repeat first [ dbg_inner H
                | match type of H with bind (if ?c then _ else _) _ = _ => destruct c; [exact H|] end ].
-  exact H.
+  match type of H with bind ?X _ = _ => destruct X as [pok| |] end; [finish_rest H | exact H | exact H].
 Qed.
+
+End Target.
+
+Lemma add_dbg_inf : forall s a b r, add (M64 true) s a b = Ok r -> add MInf s a b = Ok r.
+Proof. intros s a b r H. cbn [add] in *. destruct (a + b <? two64); [exact H | discriminate]. Qed.
+Lemma mul_dbg_inf : forall s a b r, mul (M64 true) s a b = Ok r -> mul MInf s a b = Ok r.
+Proof. intros s a b r H. cbn [mul] in *. destruct (a * b <? two64); [exact H | discriminate]. Qed.
+Lemma sub_dbg_inf : forall s a b r, sub (M64 true) s a b = Ok r -> sub MInf s a b = Ok r.
+Proof. intros s a b r H. unfold sub in *. destruct (b <=? a); [exact H | discriminate]. Qed.
+Lemma inc8_dbg_inf : forall a r, inc8 (M64 true) a = Ok r -> inc8 MInf a = Ok r.
+Proof. intros a r H. cbn [inc8] in *. destruct (a + 1 <? 256); [exact H | discriminate]. Qed.
+
+Lemma add_dbg_rel : forall s a b r, add (M64 true) s a b = Ok r -> add (M64 false) s a b = Ok r.
+Proof. intros s a b r H. cbn [add] in *. destruct (a + b <? two64); [exact H | discriminate]. Qed.
+Lemma mul_dbg_rel : forall s a b r, mul (M64 true) s a b = Ok r -> mul (M64 false) s a b = Ok r.
+Proof. intros s a b r H. cbn [mul] in *. destruct (a * b <? two64); [exact H | discriminate]. Qed.
+Lemma sub_dbg_rel : forall s a b r, sub (M64 true) s a b = Ok r -> sub (M64 false) s a b = Ok r.
+Proof. intros s a b r H. unfold sub in *. destruct (b <=? a); [exact H | discriminate]. Qed.
+Lemma inc8_dbg_rel : forall a r, inc8 (M64 true) a = Ok r -> inc8 (M64 false) a = Ok r.
+Proof. intros a r H. cbn [inc8] in *. destruct (a + 1 <? 256); [exact H | discriminate]. Qed.
+
+Definition validate_dbg_inf := validate_dbg MInf add_dbg_inf mul_dbg_inf sub_dbg_inf inc8_dbg_inf.
+Definition validate_dbg_rel := validate_dbg (M64 false) add_dbg_rel mul_dbg_rel sub_dbg_rel inc8_dbg_rel.
 
 (* the debug-profile node accepts only blocks that the unbounded validation accepts *)
 Theorem debug_accept_is_unbounded_accept : forall cap15 cap05 dbgcf st b,
@@ -219,5 +253,21 @@ Theorem debug_accept_is_unbounded_accept : forall cap15 cap05 dbgcf st b,
   validate_m cap15 cap05 dbgcf MInf st b = Ok true.
 Proof.
   intros cap15 cap05 cf st b Hd H. unfold validate, mode in H. rewrite Hd in H.
-  apply validate_dbg. exact H.
+  apply validate_dbg_inf. exact H.
+Qed.
+
+(* the release-profile node: a block it accepts is accepted by the unbounded validation as well,
+   unless a u64 operation wrapped — exactly the runs on which the debug profile does not answer *)
+Theorem release_accept_dichotomy : forall cap15 cap05 cf st b,
+  cf_dbg cf = false ->
+  validate cap15 cap05 cf st b = Ok true ->
+  validate_m cap15 cap05 cf MInf st b = Ok true \/
+  (forall v, validate_m cap15 cap05 cf (M64 true) st b <> Ok v).
+Proof.
+  intros cap15 cap05 cf st b Hd H. unfold validate, mode in H. rewrite Hd in H.
+  destruct (validate_m cap15 cap05 cf (M64 true) st b) as [v| |] eqn:E.
+  - left. pose proof (validate_dbg_rel _ _ _ _ _ _ E) as Hr. rewrite H in Hr. inversion Hr; subst.
+    apply validate_dbg_inf. exact E.
+  - right. intros v Hv. discriminate.
+  - right. intros v Hv. discriminate.
 Qed.
